@@ -23,16 +23,22 @@
 From Hio Require Import Base.Prelude.
 Local Open Scope N_scope.
 
+Definition qargs := list (N * N).           (* query arguments, in order: key, value *)
+(* what a request asks for: original request /t<id> or redirect follow-up /r<id>, and its query *)
+Definition target := (bool * N * qargs)%type.
 Record location := { l_host : option N;   (* None: relative Location *)
-                     l_https : bool }.    (* scheme of an absolute Location *)
+                     l_https : bool;      (* scheme of an absolute Location *)
+                     l_query : qargs }.   (* the query of the Location *)
 Record reply := { rp_id : N; rp_status : N; rp_loc : option location; rp_close : bool }.
 Inductive event := Enq (t : N) | Pass (o : option reply).
 
 Definition hop := (N * option N)%type.      (* status and request tag of a redirect response *)
-Record entry := { e_status : N; e_tag : option N; e_errored : bool; e_history : list hop }.
+Record entry := { e_status : N; e_tag : option N; e_errored : bool; e_history : list hop;
+                  e_target : target;           (* path/qargs of the entry's own request *)
+                  e_targets : list target }.   (* path/qargs of the request of every history hop *)
 
 Inductive witem := WReq (t : N) | WRedir (k : N).
-Record wentry := { w_conn : N; w_https : bool; w_host : N; w_item : witem }.
+Record wentry := { w_conn : N; w_https : bool; w_host : N; w_item : witem; w_q : qargs }.
 
 Record cstate := {
   queue : list N;           (* .requests *)
@@ -47,12 +53,14 @@ Record cstate := {
   wire : list wentry;       (* what servers received, in order *)
   redirectable : bool;
   rq_method : N;            (* requester.method *)
-  rs_method : N }.          (* respondent.method *)
+  rs_method : N;            (* respondent.method *)
+  rq_target : target;       (* requester.path / .qargs *)
+  rtargets : list target }. (* the requests of the entries in .redirects *)
 
 Definition init_m (sec rd : bool) (m : N) : cstate :=
   {| queue := []; waited := false; latest := None; responses := []; redirects := [];
      conn := 0; host := 0; https := sec; cut := false; sent := false; wire := []; redirectable := rd;
-     rq_method := m; rs_method := m |}.
+     rq_method := m; rs_method := m; rq_target := (false, 0, []); rtargets := [] |}.
 Definition init (sec rd : bool) : cstate := init_m sec rd 0.
 
 Definition HEAD : N := 1.
@@ -68,13 +76,14 @@ Definition enq (s : cstate) (t : N) : cstate :=
   {| queue := queue s ++ [t]; waited := waited s; latest := latest s; responses := responses s;
      redirects := redirects s; conn := conn s; host := host s; https := https s; cut := cut s;
      sent := sent s; wire := wire s; redirectable := redirectable s;
-       rq_method := rq_method s; rs_method := rs_method s |}.
+       rq_method := rq_method s; rs_method := rs_method s;
+       rq_target := rq_target s; rtargets := rtargets s |}.
 
-Definition on_wire (s : cstate) (it : witem) : wentry :=
-  {| w_conn := conn s; w_https := https s; w_host := host s; w_item := it |}.
+Definition on_wire (s : cstate) (it : witem) (q : qargs) : wentry :=
+  {| w_conn := conn s; w_https := https s; w_host := host s; w_item := it; w_q := q |}.
 
 (* serviceRequests + transmit + serviceSends: txbs leaves only while not cut off *)
-Definition pump (mof : N -> N) (s : cstate) : cstate :=
+Definition pump (mof : N -> N) (qof : N -> qargs) (s : cstate) : cstate :=
   if waited s then s else
   match queue s with
   | [] => s
@@ -82,19 +91,22 @@ Definition pump (mof : N -> N) (s : cstate) : cstate :=
     {| queue := q; waited := true; latest := Some t; responses := responses s;
        redirects := redirects s; conn := conn s; host := host s; https := https s; cut := cut s;
        sent := negb (cut s);
-       wire := if cut s then wire s else wire s ++ [on_wire s (WReq t)];
+       wire := if cut s then wire s else wire s ++ [on_wire s (WReq t) (qof t)];
        redirectable := redirectable s;
-       rq_method := mof t; rs_method := mof t |}
+       rq_method := mof t; rs_method := mof t;
+       rq_target := (false, t, qof t); rtargets := rtargets s |}
   end.
 
 (* the response entry is appended with the redirect history, .redirects cleared, .waited cleared *)
 Definition deliver (s : cstate) (st : N) (err cut' : bool) : cstate :=
   {| queue := queue s; waited := false; latest := None;
      responses := responses s ++ [{| e_status := st; e_tag := latest s; e_errored := err;
-                                     e_history := redirects s |}];
+                                     e_history := redirects s; e_target := rq_target s;
+                                     e_targets := rtargets s |}];
      redirects := []; conn := conn s; host := host s; https := https s; cut := cut';
      sent := false; wire := wire s; redirectable := redirectable s;
-       rq_method := rq_method s; rs_method := rs_method s |}.
+       rq_method := rq_method s; rs_method := rs_method s;
+       rq_target := rq_target s; rtargets := [] |}.
 
 (* serviceResponse on a completely parsed reply *)
 Definition complete (s : cstate) (r : reply) : cstate :=
@@ -111,9 +123,10 @@ Definition complete (s : cstate) (r : reply) : cstate :=
            redirects := redirects s ++ [(rp_status r, latest s)];
            conn := conn s; host := host s; https := https s; cut := cut';
            sent := negb cut';
-           wire := if cut' then wire s else wire s ++ [on_wire s (WRedir (rp_id r))];
+           wire := if cut' then wire s else wire s ++ [on_wire s (WRedir (rp_id r)) (l_query l)];
            redirectable := redirectable s;
-       rq_method := rq_method s; rs_method := rq_method s |}
+       rq_method := rq_method s; rs_method := rq_method s;
+           rq_target := (true, rp_id r, l_query l); rtargets := rtargets s ++ [rq_target s] |}
       else if https s && negb sec then
         deliver s (rp_status r) true cut'                  (* https -> http refused *)
       else
@@ -122,9 +135,10 @@ Definition complete (s : cstate) (r : reply) : cstate :=
            redirects := redirects s ++ [(rp_status r, latest s)];
            conn := conn s + 1; host := h; https := sec; cut := false; sent := true;
            wire := wire s ++ [{| w_conn := conn s + 1; w_https := sec; w_host := h;
-                                 w_item := WRedir (rp_id r) |}];
+                                 w_item := WRedir (rp_id r); w_q := l_query l |}];
            redirectable := redirectable s;
-       rq_method := rq_method s; rs_method := rq_method s |}
+       rq_method := rq_method s; rs_method := rq_method s;
+           rq_target := (true, rp_id r, l_query l); rtargets := rtargets s ++ [rq_target s] |}
     end
   else deliver s (rp_status r) false cut'.
 
@@ -133,18 +147,19 @@ Definition complete (s : cstate) (r : reply) : cstate :=
 Definition readable (s : cstate) (r : reply) : bool :=
   Bool.eqb (no_body (rs_method s) (rp_status r)) (no_body (rq_method s) (rp_status r)).
 
-Definition step (mof : N -> N) (s : cstate) (e : event) : cstate :=
+Definition step (mof : N -> N) (qof : N -> qargs) (s : cstate) (e : event) : cstate :=
   match e with
   | Enq t => enq s t
   | Pass o =>
-    let s1 := pump mof s in
+    let s1 := pump mof qof s in
     match o with
     | Some r => if waited s1 && sent s1 && readable s1 r then complete s1 r else s1
     | None => s1
     end
   end.
 
-Definition run (mof : N -> N) (s : cstate) (evs : list event) : cstate := fold_left (step mof) evs s.
+Definition run (mof : N -> N) (qof : N -> qargs) (s : cstate) (evs : list event) : cstate :=
+  fold_left (step mof qof) evs s.
 
 (* ---------- observations ---------- *)
 Definition origin (e : entry) : option N :=
@@ -164,36 +179,43 @@ Definition obs := (bool * N * N * N)%type.   (* waited, len(requests), len(respo
 Definition observe (s : cstate) : obs :=
   (waited s, N.of_nat (length (queue s)), N.of_nat (length (responses s)), N.of_nat (length (redirects s))).
 
-Fixpoint run_trace (mof : N -> N) (s : cstate) (evs : list event) : cstate * list obs :=
+Fixpoint run_trace (mof : N -> N) (qof : N -> qargs) (s : cstate) (evs : list event) : cstate * list obs :=
   match evs with
   | [] => (s, [])
   | e :: r =>
-    let s' := step mof s e in
-    let (sf, tr) := run_trace mof s' r in
+    let s' := step mof qof s e in
+    let (sf, tr) := run_trace mof qof s' r in
     (sf, match e with Pass _ => observe s' :: tr | Enq _ => tr end)
   end.
 
-Record case := { c_https : bool; c_redirectable : bool; c_cmethod : N; c_methods : list (N * N);
+Record case := { c_https : bool; c_redirectable : bool; c_cmethod : N; c_methods : list (N * N); c_qargs : list (N * qargs);
                  c_events : list event;
                  c_trace : list obs; c_entries : list entry; c_wire : list wentry }.
 
 Definition obs_eqb (x y : obs) : bool :=
   match x, y with (a, b, c, d), (a', b', c', d') => Bool.eqb a a' && (b =? b') && (c =? c') && (d =? d') end.
 Definition hop_eqb (x y : hop) : bool := (fst x =? fst y) && option_eqb N.eqb (snd x) (snd y).
+Definition q_eqb (x y : qargs) : bool := list_eqb (fun a b => (fst a =? fst b) && (snd a =? snd b)) x y.
+Definition target_eqb (x y : target) : bool :=
+  match x, y with (k, i, q), (k', i', q') => Bool.eqb k k' && (i =? i') && q_eqb q q' end.
 Definition entry_eqb (x y : entry) : bool :=
+  target_eqb (e_target x) (e_target y) && list_eqb target_eqb (e_targets x) (e_targets y) &&
   (e_status x =? e_status y) && option_eqb N.eqb (e_tag x) (e_tag y) &&
   Bool.eqb (e_errored x) (e_errored y) && list_eqb hop_eqb (e_history x) (e_history y).
 Definition witem_eqb (x y : witem) : bool :=
   match x, y with WReq a, WReq b => a =? b | WRedir a, WRedir b => a =? b | _, _ => false end.
 Definition wentry_eqb (x y : wentry) : bool :=
   (w_conn x =? w_conn y) && Bool.eqb (w_https x) (w_https y) && (w_host x =? w_host y) &&
-  witem_eqb (w_item x) (w_item y).
+  witem_eqb (w_item x) (w_item y) && q_eqb (w_q x) (w_q y).
 
 Fixpoint mof_of (l : list (N * N)) (t : N) : N :=
   match l with [] => 0 | (k, m) :: r => if k =? t then m else mof_of r t end.
 
+Fixpoint qof_of (l : list (N * qargs)) (t : N) : qargs :=
+  match l with [] => [] | (k, q) :: r => if k =? t then q else qof_of r t end.
+
 Definition check_case (c : case) : bool :=
-  let (s, tr) := run_trace (mof_of (c_methods c)) (init_m (c_https c) (c_redirectable c) (c_cmethod c)) (c_events c) in
+  let (s, tr) := run_trace (mof_of (c_methods c)) (qof_of (c_qargs c)) (init_m (c_https c) (c_redirectable c) (c_cmethod c)) (c_events c) in
   list_eqb obs_eqb tr (c_trace c) && list_eqb entry_eqb (responses s) (c_entries c) &&
   list_eqb wentry_eqb (wire s) (c_wire c).
 
@@ -203,11 +225,11 @@ Definition check_case (c : case) : bool :=
    7 redirect on a new connector  8 refused: no Location  9 refused: https -> http
    10 3xx delivered because not redirectable  11 reply whose server then closes *)
 Definition n_branches : nat := 12.
-Definition branch_of (mof : N -> N) (s : cstate) (e : event) : list nat :=
+Definition branch_of (mof : N -> N) (qof : N -> qargs) (s : cstate) (e : event) : list nat :=
   match e with
   | Enq _ => [0%nat]
   | Pass o =>
-    let s1 := pump mof s in
+    let s1 := pump mof qof s in
     let p := if waited s then [] else match queue s with [] => [] | _ => [if cut s then 3%nat else 2%nat] end in
     match o with
     | Some r =>
@@ -229,7 +251,7 @@ Definition branch_of (mof : N -> N) (s : cstate) (e : event) : list nat :=
     | None => match p with [] => [1%nat] | _ => p end
     end
   end.
-Fixpoint branches (mof : N -> N) (s : cstate) (evs : list event) : list nat :=
-  match evs with [] => [] | e :: r => branch_of mof s e ++ branches mof (step mof s e) r end.
+Fixpoint branches (mof : N -> N) (qof : N -> qargs) (s : cstate) (evs : list event) : list nat :=
+  match evs with [] => [] | e :: r => branch_of mof qof s e ++ branches mof qof (step mof qof s e) r end.
 Definition case_branches (c : case) : list nat :=
-  branches (mof_of (c_methods c)) (init_m (c_https c) (c_redirectable c) (c_cmethod c)) (c_events c).
+  branches (mof_of (c_methods c)) (qof_of (c_qargs c)) (init_m (c_https c) (c_redirectable c) (c_cmethod c)) (c_events c).
